@@ -145,7 +145,7 @@ Qed.
 Lemma update_status_master_seq e b b' : length b = SZ -> bytes b ->
   update_status_master T e b = Some b' ->
   exists p v, get_int T "p_Ist" b = Some p /\ get_int T "v_Ist" b = Some v /\
-    seq_sets T e (stow_ops e p ++ dn_ops e p ++ up_ops e p ++ rate_ops e v) b = Some b'.
+    seq_sets T e (stow_ops e p ++ dn_ops e p ++ up_ops e p ++ rate_ops e v)%list b = Some b'.
 Proof.
   intros Hl Hb H. unfold update_status_master in H.
   apply bind_some in H as (p0 & Hp0 & H). apply bind_some in H as (b1 & H1 & H).
@@ -202,7 +202,7 @@ Proof.
   intros Hl Hb H.
   destruct (update_status_master_seq e b b' Hl Hb H) as (p & v & Hp & Hv & S).
   exists p, v.
-  set (ops := stow_ops e p ++ dn_ops e p ++ up_ops e p ++ rate_ops e v) in *.
+  set (ops := (stow_ops e p ++ dn_ops e p ++ up_ops e p ++ rate_ops e v)%list) in *.
   destruct (int_field "p_Ist" ltac:(cbn; auto)) as (fp & Fp & Vp & _).
   destruct (int_field "v_Ist" ltac:(cbn; auto)) as (fv & Fv & Vv & _).
   (* what the sequence assigns, by cases on the position of p and on the stow list *)
